@@ -4,5 +4,7 @@ CONSTANTS
   OneFifo = TRUE
   CrossTag = FALSE
   Reuse = TRUE
+  Handover = FALSE
+  Requeue = FALSE
 INVARIANTS Prefix
 CHECK_DEADLOCK FALSE
